@@ -1135,6 +1135,8 @@ enum KOp {
     Timeout,
     /// release_orphaned_locks(now + 1)
     Orphan,
+    /// force_resolve(tx, commit?) — the partition-merge entry point that finishes a transaction
+    Force(u8, bool),
     /// complete_commit(tx) — part W only, enabled while the transaction is Committing
     CompleteCommit(u8),
     /// complete_abort(tx) — part W only, enabled while the transaction is Aborting
@@ -1160,7 +1162,7 @@ fn k_alphabet() -> Vec<KOp> {
         v.push(KOp::Abort(t));
         v.push(KOp::Commit(t));
     }
-    v.extend([KOp::Timeout, KOp::Orphan]);
+    v.extend([KOp::Timeout, KOp::Orphan, KOp::Force(0, true), KOp::Force(0, false)]);
     v
 }
 struct KState {
@@ -1212,6 +1214,8 @@ fn k_op_name(op: &KOp) -> &'static str {
         KOp::Vote(..) => "record_vote",
         KOp::Commit(_) => "commit",
         KOp::Abort(_) => "abort",
+        KOp::Force(_, true) => "force_resolve(commit)",
+        KOp::Force(_, false) => "force_resolve(abort)",
         KOp::Timeout => "cleanup_timeouts",
         KOp::Orphan => "release_orphaned_locks",
         KOp::CompleteCommit(_) => "complete_commit",
@@ -1265,7 +1269,7 @@ fn k_apply(st: &mut KState, op: &KOp) -> Result<bool, (String, String)> {
                 }
             }
         }
-        KOp::Commit(t) | KOp::Abort(t) | KOp::CompleteCommit(t) | KOp::CompleteAbort(t) => {
+        KOp::Commit(t) | KOp::Abort(t) | KOp::Force(t, _) | KOp::CompleteCommit(t) | KOp::CompleteAbort(t) => {
             if st.finished[*t as usize] {
                 return Ok(false);
             }
@@ -1274,6 +1278,7 @@ fn k_apply(st: &mut KState, op: &KOp) -> Result<bool, (String, String)> {
             let res = match op {
                 KOp::Commit(_) => st.co.commit(id),
                 KOp::Abort(_) => st.co.abort(id, "client abort"),
+                KOp::Force(_, commit) => st.co.force_resolve(id, *commit),
                 KOp::CompleteCommit(_) if st.wal && phase == Some(TxPhase::Committing) => st.co.complete_commit(id),
                 KOp::CompleteAbort(_) if st.wal && phase == Some(TxPhase::Aborting) => st.co.complete_abort(id),
                 _ => return Ok(false),
@@ -2433,7 +2438,7 @@ fn main() {
         "D: every digraph without self-loops on 2..4 transactions and every one on 5 transactions with <= {max5} edges (20 = all 2^20), each built through add_wait in canonical and reversed insertion order (+ rings / paths / two rings with every single chord on 6-8 transactions, not exhaustive): detect_cycles non-empty <=> transitive closure has a cycle, every reported cycle is a directed cycle, would_create_cycle <=> reachability for every ordered pair, DeadlockDetector::detect non-empty <=> cyclic and victim in its cycle for 4 policies. \
          G: BFS over every sequence of WaitForGraph mutations {{add_wait (every ordered pair, + self-waits), remove_wait (every ordered pair), remove_transaction, clear, clock+600ms, cleanup_stale_edges(1000ms)}} on the graphs of 4 real DeadlockDetectors (one per victim policy), for (transactions, max_edges_per_tx, depth) in {g_cfgs:?}, dedup on everything the public API shows (edges, reverse edges, wait-start age/order, priorities, counts); after every step waiting_for = waiting_on = edge_count = the edge set recorded by the calls (self-wait ignored, edge beyond max_edges_per_tx dropped, remove_wait removes one edge, remove_transaction/cleanup_stale_edges every edge of the transaction, clear all), detect_cycles/would_create_cycle/detect/select_victim against the transitive closure of that set. \
          S: BFS over every sequence of <= {s_depth} operations of {{try_lock, try_lock_with_wait_tracking (3 txs x key sets a, b, ab), release, release_by_handle[_with_wait_cleanup] (latest/previous handle), cleanup_expired[_with_wait_cleanup], clock+600ms (timeout 1000ms), to_serializable->bitcode->from_serializable, and on the shared graph add_wait / remove_wait (every ordered pair), remove_transaction, clear, cleanup_stale_edges(1000ms)}} replayed on a fresh real LockManager+WaitForGraph (thorough: additionally the lock-manager calls alone one level deeper), dedup on the real state modulo handle renaming/time shift; after every step the sequential lock table, and after a graph call the recorded edges = set algebra on the edges before it. \
-         K: every sequence of <= {k_depth} coordinator operations {{handle_prepare, record_vote of the in-flight vote, commit, abort, clock+6s & cleanup_timeouts, release_orphaned_locks}} on 2 transactions (A: shards 0,1; B: shard 0) and keys a,b. \
+         K: every sequence of <= {k_depth} coordinator operations {{handle_prepare, record_vote of the in-flight vote, commit, abort, force_resolve(commit|abort), clock+6s & cleanup_timeouts, release_orphaned_locks}} on 2 transactions (A: shards 0,1; B: shard 0) and keys a,b. \
          W: the same on a coordinator built .with_wal(TxWal size-capped, auto_rotate off) plus complete_commit/complete_abort: every sequence of <= {w_depth} operations without fault, and for every record the last operation of such a sequence appends (found by parsing the WAL file) the cap set so that exactly this append is the first to fail, once with every later append failing too (cap = bytes before the record) and once with only appends of this size and larger failing (cap = record end - 1), followed by every continuation up to the depth under the same cap. After every call, whatever it returned: every lock and every wait-for edge belongs to a transaction coordinator.get() still knows (a failed commit/abort may leave the transaction pending with its locks), a successful finish leaves nothing of the transaction; at the end of every run truncate_wal() and the failed call again (complete_commit if left Committing, otherwise abort) must succeed and leave nothing. \
          T: for each program (2-3 threads on one LockManager+WaitForGraph or one DistributedTxCoordinator) every schedule with <= {bound} preemptions (scheduling point = every parking_lot lock acquisition); LockManager level: brute-force linearizability against the sequential lock table + quiescent state; coordinator level: a finished transaction owns no key it was granted before finishing and is neither waiter nor holder in the wait-for graph, no grant while provably held, edges/reverse_edges mirror, detect_cycles <=> recorded edges, no deadlock. non-trivial = cyclic graphs (D, G) + distinct sequential states (S) + distinct end states (K, W) + schedules with >= 1 preemption (T)"
     ));
